@@ -860,8 +860,29 @@ class Gen:
         c_lo = len(self.out)
         self.emit(header.replace('$HDR', hdr), 'spec', specfile, specline + 1)
         c_hi = len(self.out)
+        suffix = kw.get('suffix', '').replace('~', ' ')
+        # `use` statements at the top level of the enclosing function are in scope in the loop body: copied verbatim
+        uses = []
+        k = it.body_open + 1
+        while k < it.end:
+            if src.is_id(k, 'use'):
+                e = k
+                while not src.is_p(e, ';'):
+                    e += 1
+                uses.append(src.span_text(k, e))
+                k = e
+            elif src.toks[k].kind == 'punct' and src.toks[k].text in '([{':
+                k = src.match[k]
+            k += 1
+        if suffix or uses:
+            # the body is a statement of a function that ends with `suffix` (e.g. `Ok(())` when the body uses `?`)
+            self.emit('{', 'spec', specfile, specline, False)
+            for u in uses:
+                self.emit(self.clean(u), 'code', rel, it.line, False)
         segs = self.body_with_insertions(src, bopen, src.match[bopen], lins, proofs, rel)
         self.emit_segs(segs, rel)
+        if suffix or uses:
+            self.emit(suffix + '\n}', 'spec', specfile, specline, False)
         self.end_block(c_lo, c_hi)
 
     # ---------------------------------------------------------------- output
